@@ -124,13 +124,17 @@ def _witness_failure(fn):
                 continue
         except Exception:
             continue
+        from vp import harness
         try:
+            harness.CONCRETE[0] = True
             with contextlib.redirect_stdout(io.StringIO()):
                 v = fn(*args)
         except Exception as e:
             if type(e).__name__ == 'Inconclusive':
                 continue
             return args
+        finally:
+            harness.CONCRETE[0] = False
         if v is not True:
             return args
     return None
